@@ -795,7 +795,7 @@ func runC01(c *Ctx) {
 	r := c.R
 	r.Assume("'never none' is restated as bounded progress: a reply is lost iff every backend attempt was answered or dropped and the same client completed 2x50 further OPTIONS round trips with nothing moving")
 	r.Assume("a request counts only while its client connection stays open; EVENT frames on stream -1 are not replies")
-	r.Require("requests_answered", "death_orders_run")
+	r.Require("requests_answered", "death_orders_run", "kill_under_fire_runs")
 	if os.Getenv("VERIF_C01_ONLY") != "" {
 		// debugging aid
 	}
@@ -870,6 +870,13 @@ func runC01(c *Ctx) {
 			massDeath(c, j, 2+j%3, 1500+(j%3)*250)
 		}
 	}
+	// 3b. connection deaths racing with senders
+	for j := 0; j < c.Pick(4, 40); j++ {
+		k := next()
+		if c.Mine(k) {
+			killUnderFire(c, j, 24+8*(j%2), c.Pick(250, 600))
+		}
+	}
 	// 4. exhaustion
 	for j := 0; j < c.Pick(2, 12); j++ {
 		k := next()
@@ -878,4 +885,84 @@ func runC01(c *Ctx) {
 		}
 	}
 	var _ = frame.NewFrame
+}
+
+// killUnderFire: many clients send at full speed to a host with a single pooled connection while that connection is
+// killed again and again; every connection death races with the senders registering requests on it.
+func killUnderFire(c *Ctx, idx int, nClients, rounds int) {
+	r := c.R
+	label := "kill-under-fire"
+	scenario := map[string]interface{}{"kind": "kill-under-fire", "idx": idx, "clients": nClients, "rounds": rounds}
+	c.Step("kill-under-fire idx=%d clients=%d rounds=%d", idx, nClients, rounds)
+	bed, err := px.NewBed(px.BedConfig{Hosts: 1 + idx%2, NumConns: 1, Keyspaces: []string{"ks1"}, ReconnectBase: time.Millisecond, ReconnectMax: 2 * time.Millisecond})
+	if err != nil {
+		r.Inconc("kill-under-fire: cannot start bed: " + err.Error())
+		return
+	}
+	defer bed.Close()
+	bed.OnHook(nil)
+	scripts := NewScripts()
+	bed.Cluster.SetScript(scripts.Func())
+	var clients []*rawcql.Client
+	for i := 0; i < nClients; i++ {
+		cl, err := bed.ReadyClient(primitive.ProtocolVersion4, "")
+		if err != nil {
+			r.Inconc("kill-under-fire: handshake: " + err.Error())
+			return
+		}
+		defer cl.Close()
+		clients = append(clients, cl)
+	}
+	mark := bed.Log.Len()
+	stop := make(chan struct{})
+	var wg sync.WaitGroup
+	var sent int64
+	for ci, cl := range clients {
+		wg.Add(1)
+		go func(ci int, cl *rawcql.Client) {
+			defer wg.Done()
+			sem := make(chan struct{}, 48)
+			cl.SetOnFrame(func(f *rawcql.Frame) {
+				if f.Stream >= 0 && f.Stream < 30000 {
+					select {
+					case <-sem:
+					default:
+					}
+				}
+			})
+			for i := 0; ; i++ {
+				select {
+				case <-stop:
+					return
+				case sem <- struct{}{}:
+				case <-time.After(20 * time.Second):
+					return
+				}
+				if i >= 29000 {
+					return
+				}
+				f := BuildRequest(primitive.ProtocolVersion4, int16(i), KQuery, i%3 != 0, NewTok(), primitive.ConsistencyLevelOne)
+				if cl.SendF(f) != nil {
+					return
+				}
+				atomic.AddInt64(&sent, 1)
+			}
+		}(ci, cl)
+	}
+	all := []int{1}
+	if idx%2 == 1 {
+		all = []int{1, 2}
+	}
+	for k := 0; k < rounds; k++ {
+		time.Sleep(time.Duration(1500+(k%7)*300) * time.Microsecond)
+		bed.Cluster.KillPooled(k%2 == 0, all...)
+	}
+	close(stop)
+	wg.Wait()
+	drain(r, bed, scripts, clients, label, scenario, mark)
+	r.Eval(int(sent))
+	r.Obs("kill_under_fire_runs", 1)
+	r.Obs("requests_sent", int(sent))
+	r.Obs("connection_kills_under_fire", rounds)
+	r.NonTrivial(fmt.Sprintf("kill-under-fire/cl%d/r%d/h%d", nClients, rounds, 1+idx%2))
 }
